@@ -7,55 +7,20 @@
    [run v h] is the list of (sink, symbolic text) the agent writes over history [h] (latch, rotation,
    disable/enable, restarts, client requests, /provision queries, provision deadline, status.json
    writes; host faults: error status, malformed / invalid status, error / malformed key body, non-hex
-   key, failed attestation).  [v] says which of the two small repairs the code carries
-   ([unfixed] = the pinned tree).  [Mac _] fragments are not occurrences of the key. *)
+   key, failed attestation).  [v] says which of the two repairs of F6 the code carries; [current]
+   (= both: commits 5de21e5 and 04b956c) is the code under verification.  [Mac _] fragments are not
+   occurrences of the key. *)
 From Coq Require Import List NArith Bool.
 From GPA Require Import Taint TaintProofs.
 Import ListNotations.
 Open Scope N_scope.
 
-(* The full statement is REFUTED by the faithful model of the pinned tree on two host-fault paths (F6). *)
-(* (1) the host hands out a key whose value is not valid hex *)
-Theorem C12_hex_error_refuted : exists h : history, ~ noninterference (run unfixed h).
-Proof. exact hex_error_refuted. Qed.
-Print Assumptions C12_hex_error_refuted.
-
-(* (2) the host's key response body does not deserialize *)
-Theorem C12_body_error_refuted : exists h : history, ~ noninterference (run unfixed h).
-Proof. exact body_error_refuted. Qed.
-Print Assumptions C12_body_error_refuted.
-
-(* The strongest true statement: for EVERY history and EVERY sink other than the key file, the only key
-   values that can occur are (a) keys the host delivered non-hex, and then only in the log, the console
-   and the connection log; (b) keys the host delivered inside an undeserialisable body, and then only in
-   the log, connection log, events, status.json, status.tag, the serial console and /provision answers --
-   each only while the corresponding repair is absent. *)
-Theorem C12_leak_envelope : forall (v : variant) (h : history) (s : sink) (t : text) (k : keyid),
-  In (s, t) (run v h) -> In k (secrets t) -> leak_allowed v h s k.
-Proof. exact leak_envelope. Qed.
-Print Assumptions C12_leak_envelope.
-
-(* non-interference for every history outside the two known-finding classes *)
-Theorem C12_noninterference_partial : forall (v : variant) (h : history),
-  KnownClass_host_key_not_hex v h = false ->
-  KnownClass_host_key_body_malformed v h = false ->
-  Forall (fun o : sink * text => fst o = KeyFile \/ secret_free (snd o)) (run v h).
-Proof. exact noninterference_partial. Qed.
-Print Assumptions C12_noninterference_partial.
-
-(* a well-formed key stays in the key file even in histories where OTHER keys hit the faults *)
-Theorem C12_wellformed_key_confined : forall (v : variant) (h : history) (s : sink) (t : text) (k : keyid),
-  In (s, t) (run v h) -> In k (secrets t) ->
-  ~ In k (nonhex_keys h) -> ~ In k (malformed_keys h) -> s = KeyFile.
-Proof. exact wellformed_key_confined. Qed.
-Print Assumptions C12_wellformed_key_confined.
-
-(* the repaired behaviour (patches/fix-C12-acquire-body.diff + fix-C12-acquire-nonhex.diff): the full
-   statement, for all histories *)
-Theorem C12_noninterference_repaired : forall h : history,
-  Forall (fun o : sink * text => fst o = KeyFile \/ secret_free (snd o)) (run repaired h).
-Proof. exact noninterference_repaired. Qed.
-Print Assumptions C12_noninterference_repaired.
+(* THE PROPERTY, at full strength: for EVERY history over the whole fault alphabet, every sink other
+   than the key file is free of every key value. *)
+Theorem C12_noninterference : forall h : history,
+  Forall (fun o : sink * text => fst o = KeyFile \/ secret_free (snd o)) (run current h).
+Proof. exact noninterference_current. Qed.
+Print Assumptions C12_noninterference.
 
 (* the key directory: at every creation of a file inside it, it has been chown'ed to root:root and
    chmod'ed to 0o700 and nothing has undone that (mkdir resets; restarts redo chown + chmod); [predir]:
@@ -73,9 +38,56 @@ Theorem C12_dir_restricted_first :
 Proof. exact dir_restricted_first. Qed.
 Print Assumptions C12_dir_restricted_first.
 
-(* non-vacuity: the witnesses are in their classes and leak exactly where the replay on the real code
-   shows the canary; a latch / rotation / disable / restart / re-enable history writes two key files and
-   nothing else; the repaired variants are silent on the witnesses *)
+(* ---- what the two repairs prevent (F6; both were replayed on the real code before the repairs) ---- *)
+
+(* Without the repairs the statement is refuted on two host-fault paths: *)
+(* (1) the host hands out a key whose value is not valid hex *)
+Theorem C12_hex_error_refuted : exists h : history, ~ noninterference (run unfixed h).
+Proof. exact hex_error_refuted. Qed.
+Print Assumptions C12_hex_error_refuted.
+
+(* (2) the host's key response body does not deserialize *)
+Theorem C12_body_error_refuted : exists h : history, ~ noninterference (run unfixed h).
+Proof. exact body_error_refuted. Qed.
+Print Assumptions C12_body_error_refuted.
+
+(* each repair is needed on its own *)
+Theorem C12_without_hex_repair_refuted : exists h : history, ~ noninterference (run only_body_repair h).
+Proof. exact without_hex_repair_refuted. Qed.
+Print Assumptions C12_without_hex_repair_refuted.
+
+Theorem C12_without_body_repair_refuted : exists h : history, ~ noninterference (run only_hex_repair h).
+Proof. exact without_body_repair_refuted. Qed.
+Print Assumptions C12_without_body_repair_refuted.
+
+(* The exact leak envelope of EVERY variant: for every history and every sink other than the key file, the
+   only key values that can occur are (a) keys the host delivered non-hex, and then only in the log, the
+   console and the connection log; (b) keys the host delivered inside an undeserialisable body, and then
+   only in the log, connection log, events, status.json, status.tag, the serial console and /provision
+   answers -- each only while the corresponding repair is absent. *)
+Theorem C12_leak_envelope : forall (v : variant) (h : history) (s : sink) (t : text) (k : keyid),
+  In (s, t) (run v h) -> In k (secrets t) -> leak_allowed v h s k.
+Proof. exact leak_envelope. Qed.
+Print Assumptions C12_leak_envelope.
+
+(* non-interference of every variant for every history outside the fault classes its missing repairs open *)
+Theorem C12_noninterference_partial : forall (v : variant) (h : history),
+  KnownClass_host_key_not_hex v h = false ->
+  KnownClass_host_key_body_malformed v h = false ->
+  Forall (fun o : sink * text => fst o = KeyFile \/ secret_free (snd o)) (run v h).
+Proof. exact noninterference_partial. Qed.
+Print Assumptions C12_noninterference_partial.
+
+(* a well-formed key stays in the key file even in histories where OTHER keys hit the faults *)
+Theorem C12_wellformed_key_confined : forall (v : variant) (h : history) (s : sink) (t : text) (k : keyid),
+  In (s, t) (run v h) -> In k (secrets t) ->
+  ~ In k (nonhex_keys h) -> ~ In k (malformed_keys h) -> s = KeyFile.
+Proof. exact wellformed_key_confined. Qed.
+Print Assumptions C12_wellformed_key_confined.
+
+(* non-vacuity: the witnesses are in their classes and (without the repairs) leak exactly where the replay
+   on the pre-repair code showed the canary; a latch / rotation / disable / restart / re-enable history
+   writes two key files and nothing else; the current code is silent on both witnesses *)
 Example C12_witnesses_in_class :
   KnownClass_host_key_not_hex unfixed witness_not_hex = true
   /\ KnownClass_host_key_body_malformed unfixed witness_not_hex = false
